@@ -9,6 +9,7 @@ import (
 	"sort"
 	"strings"
 	"testing"
+	"testing/cryptotest"
 	"testing/synctest"
 	"time"
 )
@@ -64,6 +65,8 @@ type WorkerOut struct {
 
 // Exec runs one scenario in a fresh bubble and judges it.
 func Exec(t *testing.T, scn *Scenario) (r *Run, jd *Judged) {
+	// crypto/rand (GCM nonces, temporary file names) is part of the execution: seed it
+	cryptotest.SetGlobalRandom(t, scn.Seed^scn.SchedSeed)
 	func() {
 		defer func() {
 			if p := recover(); p != nil {
